@@ -31,6 +31,8 @@ type wEvent struct {
 	OK      bool    `json:"ok,omitempty"`
 	Expired []int64 `json:"expired,omitempty"`
 	Batch   []int64 `json:"batch,omitempty"`
+	// prepare: the handler returned no anchor string (every operation of the batch has expired: nothing to anchor)
+	NoAnchor bool `json:"no_anchor,omitempty"`
 }
 
 type wRecorder struct {
@@ -144,6 +146,7 @@ func (h *wHandler) PrepareTxnFiles(ops []*operation.QueuedOperation) (*protocol.
 		for _, x := range info.ExpiredOperations {
 			e.Expired = append(e.Expired, opID(x))
 		}
+		e.NoAnchor = info.AnchorString == ""
 	}
 	h.rec.add(e)
 	return info, err
@@ -291,7 +294,18 @@ func (s *wSchedule) describe(bank []wOp) interface{} {
 	return map[string]interface{}{"max_operation_count": s.max, "ticks": ts}
 }
 
-func genSchedule(rng *rand.Rand, bank []wOp, nextID *int64, withZero bool) *wSchedule {
+// expiredBank: indices of the operations of the bank that are expired by construction
+func expiredBank(bank []wOp) []int {
+	var ix []int
+	for i, b := range bank {
+		if b.expired {
+			ix = append(ix, i)
+		}
+	}
+	return ix
+}
+
+func genSchedule(rng *rand.Rand, bank []wOp, nextID *int64, withZero bool, expiredRun bool) *wSchedule {
 	s := &wSchedule{max: uint(2 + rng.Intn(3))}
 	vers := []uint64{100, 200}
 	if withZero {
@@ -308,8 +322,19 @@ func genSchedule(rng *rand.Rand, bank []wOp, nextID *int64, withZero bool) *wSch
 		return wAdd{id: *nextID, bank: rng.Intn(len(bank)), ver: curV}
 	}
 	nt := 1 + rng.Intn(4)
+	exIx := expiredBank(bank)
 	for i := 0; i < nt; i++ {
 		t := wTick{force: rng.Intn(3) > 0, inject: map[int][]wAdd{}}
+		if expiredRun && i == 0 {
+			// a run of expired-by-construction operations at the head of the queue (1 .. 2*max+1 of them): whole batches
+			// of expired operations, full ones cut by the drain loop and a last small one cut on timeout (F16)
+			t.force = rng.Intn(4) > 0
+			for k := 1 + rng.Intn(2*int(s.max)+1); k > 0; k-- {
+				a := mk()
+				a.bank = exIx[rng.Intn(len(exIx))]
+				t.pre = append(t.pre, a)
+			}
+		}
 		for k := rng.Intn(5); k > 0; k-- {
 			t.pre = append(t.pre, mk())
 		}
@@ -421,12 +446,69 @@ func runC16(c *ctx) error {
 	}
 	var nextID int64
 	for i := 0; i < n; i++ {
-		s := genSchedule(rng, bank, &nextID, i%3 == 0)
+		s := genSchedule(rng, bank, &nextID, i%3 == 0, i%5 == 2)
 		ids := map[int64]wAdd{}
 		res := runSchedule(s, bank, ids)
 		desc := map[string]interface{}{"schedule": s.describe(bank), "impl": res}
 		// --- oracle on the implementation alone: conservation / exactly once on the anchor log ---
 		nExp := 0
+		// F16: what follows a successful PrepareTxnFiles.  A batch whose operations have all expired gets no anchor
+		// string and is committed (Ack) without an anchor write and without re-queued operations; every other
+		// batch is followed by exactly one anchor write.  [settledExpired]: expired operations of committed batches.
+		var pending *wEvent
+		nAllExpired, settledExpired, anchorsOK := 0, 0, 0
+		var discarded []int64 // expired operations of committed batches, in the order they were discarded
+		for k := range res.Events {
+			e := &res.Events[k]
+			switch e.Kind {
+			case "add":
+				continue
+			case "prepare":
+				pending = nil
+				if e.OK {
+					pending = e
+					allExp := len(e.Expired) == len(e.Batch)
+					if allExp != e.NoAnchor {
+						r.Direct = append(r.Direct, out.Direct{Oracle: "no_anchor_string_iff_every_operation_expired",
+							What: fmt.Sprintf("batch %v, expired %v, anchor string empty: %v", e.Batch, e.Expired, e.NoAnchor), Case: desc})
+					}
+					if allExp {
+						nAllExpired++
+						r.Count("all_expired_batch_size", fmt.Sprint(len(e.Batch)))
+					}
+				}
+			case "anchor":
+				if pending == nil || len(pending.Expired) == len(pending.Batch) {
+					r.Direct = append(r.Direct, out.Direct{Oracle: "anchor_write_only_after_prepare_with_included_operations",
+						What: fmt.Sprintf("WriteAnchor after %+v", pending), Case: desc})
+				} else if e.OK {
+					settledExpired += len(pending.Expired)
+					discarded = append(discarded, pending.Expired...)
+					anchorsOK++
+				}
+				if !e.OK {
+					pending = nil
+				}
+			case "readd":
+				if pending == nil || len(pending.Expired) == len(pending.Batch) {
+					r.Direct = append(r.Direct, out.Direct{Oracle: "nothing_requeued_from_an_all_expired_batch", What: fmt.Sprintf("re-add after %+v", pending), Case: desc})
+				}
+			case "ack":
+				if pending == nil {
+					r.Direct = append(r.Direct, out.Direct{Oracle: "ack_follows_successful_prepare", What: "Ack without a successful PrepareTxnFiles before it", Case: desc})
+				} else if len(pending.Expired) == len(pending.Batch) {
+					settledExpired += len(pending.Expired) // committed without an anchor write
+					discarded = append(discarded, pending.Expired...)
+				}
+				pending = nil
+			case "nack":
+				pending = nil
+			}
+		}
+		r.Count("all_expired_batches_per_schedule", fmt.Sprint(nAllExpired))
+		if nAllExpired > 0 {
+			r.Count("special", "schedule-with-all-expired-batch")
+		}
 		for _, e := range res.Events {
 			r.Count("events", e.Kind)
 			if e.Kind == "prepare" && !e.OK {
@@ -462,6 +544,18 @@ func runC16(c *ctx) error {
 		if res.Panic != "" {
 			r.Direct = append(r.Direct, out.Direct{Oracle: "no_panic", What: res.Panic, Case: desc})
 		}
+		// one log entry per successful anchor write, none for an all-expired batch
+		if anchorsOK != len(res.Log) {
+			r.Direct = append(r.Direct, out.Direct{Oracle: "one_anchor_per_prepare_with_included_operations",
+				What: fmt.Sprintf("%d successful anchor writes recorded as events, %d entries in the anchor log", anchorsOK, len(res.Log)), Case: desc})
+		}
+		// conservation on the implementation alone (every tick has returned: nothing is in flight): every accepted
+		// operation is in the queue, in an anchored batch, or was discarded as expired with a committed batch
+		if res.Panic == "" && len(res.Accepted) != len(res.Queue)+anchoredCount+settledExpired {
+			r.Direct = append(r.Direct, out.Direct{Oracle: "every_accepted_operation_is_queued_anchored_or_discarded",
+				What: fmt.Sprintf("accepted %d, queued %d, anchored %d, discarded as expired %d", len(res.Accepted), len(res.Queue), anchoredCount, settledExpired), Case: desc})
+		}
+		_ = nExp
 		r.Count("ticks", fmt.Sprint(len(s.ticks)))
 		r.Count("accepted", fmt.Sprint(len(res.Accepted)))
 		r.Count("batches", fmt.Sprint(len(res.Log)))
@@ -524,7 +618,7 @@ func runC16(c *ctx) error {
 			logs = append(logs, "("+emit.Z(int64(b.Version))+", "+zl(codes)+")")
 		}
 		key := fmt.Sprint(s.describe(bank))
-		r.Add(g, emit.App("Build_wrcase", emit.Nat(int(s.max)), emit.List(evs), zl(res.Queue), emit.List(logs), emit.Bool(res.Panic != "")), desc,
+		r.Add(g, emit.App("Build_wrcase", emit.Nat(int(s.max)), emit.List(evs), zl(res.Queue), emit.List(logs), zl(discarded), emit.Bool(res.Panic != "")), desc,
 			key, len(res.Log) > 0)
 	}
 	return r.Finish(100)
